@@ -26,6 +26,9 @@ pub enum EnvAct {
     Send(usize, Version),
     ConnectTcp,
     Signal(i32),
+    /// no action: the environment goes on only once every worker is back at the top of its loop with
+    /// nothing pending (it has taken everything sent so far)
+    WaitIdle,
 }
 
 impl EnvAct {
@@ -34,6 +37,7 @@ impl EnvAct {
             EnvAct::Send(c, v) => format!("send(c{},{})", c, if *v == Version::Classic { "C" } else { "I" }),
             EnvAct::ConnectTcp => "connect_tcp".into(),
             EnvAct::Signal(s) => format!("signal({})", if *s == libc::SIGINT { "INT" } else { "TERM" }),
+            EnvAct::WaitIdle => "wait_idle".into(),
         }
     }
 }
@@ -491,7 +495,7 @@ impl<'a> Ctl<'a> {
             }
             EnvAct::ConnectTcp => {
                 let addr: SocketAddr = format!("127.0.0.1:{}", self.slot.hport).parse().unwrap();
-                match std::net::TcpStream::connect_timeout(&addr, Duration::from_secs(2)) {
+                match crate::util::tcp_connect(&addr, Duration::from_secs(2)) {
                     Ok(s) => self.tcp.push(s),
                     Err(e) => self.trace.push(format!("connect failed: {}", e)),
                 }
@@ -499,6 +503,7 @@ impl<'a> Ctl<'a> {
                     *w = true;
                 }
             }
+            EnvAct::WaitIdle => {}
             EnvAct::Signal(s) => {
                 let again = self.flag_stored;
                 self.proc_.signal(s);
@@ -549,6 +554,7 @@ impl<'a> Ctl<'a> {
             let ok = match self.scn.env[self.env_pc] {
                 // "once the server is serving"
                 EnvAct::Signal(_) => serving,
+                EnvAct::WaitIdle => serving && (0..self.scn.workers).all(|i| !self.wake[i] && self.parked_at(&Actor::Worker(i)).map(|p| p.0 == "loop_top").unwrap_or(false)),
                 _ => serving || (early && all_bound),
             };
             if ok {
@@ -1181,6 +1187,9 @@ pub fn replay_schedule(c: &Value) -> Result<Option<String>, String> {
         }
         if t == "signal(TERM)" {
             return Some(EnvAct::Signal(libc::SIGTERM));
+        }
+        if t == "wait_idle" {
+            return Some(EnvAct::WaitIdle);
         }
         let inner = t.strip_prefix("send(c")?.strip_suffix(')')?;
         let (ci, v) = inner.split_once(',')?;
